@@ -158,6 +158,33 @@ HANDLERS = {
 }
 
 
+# C12: numbers and strings of a frame's meta survive the trip into nu and back (json_to_value / value_to_json)
+META_M = {"big": 9007199254740993, "max": 9223372036854775807, "min": -9223372036854775808, "fl": 2.5,
+          "neg": -1, "s": "q\"\\ é", "nested": {"a": [1, 2, {"b": None}]}, "t": True}
+
+
+def canon(v):
+    import json
+    return json.dumps(v, sort_keys=True, separators=(",", ":"), ensure_ascii=False)
+
+
+def handler_meta():
+    script = ("$env.n = 0\n{\n  run: {|frame|\n    if not ($frame.topic | str starts-with \"t.\") { return }\n"
+              "    $env.n = $env.n + 1\n"
+              "    {k: \"ret\", n: $env.n, tid: $frame.id, t: $frame.topic, z: $frame.meta}\n  }\n}\n")
+    o = _out("{name}.out", "ret|" + canon(META_M))
+    o["name"], o["suf"], o["ret"] = "", "out", True
+    return dict(_spec(fam="h", outs=[o], group=1), script=script)
+
+
+def command_bytes():
+    """C10: a byte stream that reaches the unbuffered `.append` in several pieces is stored whole"""
+    script = ("{\n  run: {|frame|\n"
+              "    [\"alpha\" \"beta\" \"gamma\"] | each {|x| $x} | to text | .append p.a1\n"
+              "    {k: \"v.r1\", tid: $frame.id, t: $frame.topic}\n  }\n}\n")
+    return dict(_spec(fam="c", recv=["v.r1"], cappends=[_out("p.a1", "alpha\nbeta\ngamma")]), script=script)
+
+
 def handler_after(action_index, **kw):
     return handler(resume=f"after:{action_index}", **kw)
 
